@@ -220,11 +220,46 @@ def cancel_then_place_mixed_delays():
     ]
     return scenario([market(101, ups)])
 
+def f24_place_the_closed_replacement():
+    """the replacement order of a replace whose re-placement failed stays in trade.orders (complete, size lapsed, never in the
+    blotter); the strategy then places trade.orders[-1] - must be refused, not matched a second time"""
+    ups = [
+        update(T0, two(), acts={"0": [create(0, 0, 1, "BACK", 3.0, 10.0), ["place", "t0", None, False]]}),
+        update(T0 + 200, two()),
+        update(T0 + 300, two(), acts={"0": [["replace", "t0", 3.5, 1, False]]}),
+        update(T0 + 400, two(), version=2),
+        update(T0 + 700, two(), version=2),
+        update(T0 + 1700, two(), version=2, acts={"0": [["place", "t0", None, False]]}),
+        update(T0 + 2700, two(), version=2, acts={"0": [["place", "t0", 2, True]]}),
+        update(T0 + 3700, two(), version=2),
+    ]
+    return scenario([market(101, ups)], max_live=5, multi=True)
+
+
+def f23_replace_package_with_a_completed_order():
+    """two orders replaced in one package; the first is fully matched while the request waits out its latency: it has no
+    instruction, the second must still be replaced (and only one instruction is counted)"""
+    r1 = runner(1, atb=[(2.0, 50.0)], atl=[(2.5, 50.0)])
+    r1b = runner(1, atb=[(2.0, 50.0)], atl=[(2.5, 50.0)], trd=[(3.0, 20.0)])
+    r2 = runner(2, atb=[(4.0, 50.0)], atl=[(5.0, 50.0)])
+    ups = [
+        update(T0, [r1, r2], acts={"0": [create(0, 0, 1, "BACK", 3.0, 4.0), ["place", "t0", None, False],
+                                           create(1, 1, 1, "BACK", 3.0, 50.0), ["place", "t1", None, False]]}),
+        update(T0 + 200, [r1, r2]),
+        update(T0 + 300, [r1, r2], acts={"0": [["bbegin", 0], ["replace", "t0", 3.5, None, False], ["replace", "t1", 3.5, None, False], ["bend"]]}),
+        update(T0 + 400, [r1b, r2]),
+        update(T0 + 700, [r1b, r2]),
+        update(T0 + 1700, [r1b, r2]),
+    ]
+    return scenario([market(101, ups)], max_live=5, multi=True)
+
+
 
 ALL = [f4_cancel_failure_after_lapse, f4_update_failure_after_fill, f5_void_after_partial_cancel, f11_sp_order_on_removed_runner,
        f6_same_removal_in_two_markets, lambda: f6_same_removal_in_two_markets(True), f15_replace_with_failed_replacement, f3_place_twice,
        f2_refused_cancel, completes_during_cancel_latency, trade_reuse_after_complete, second_order_within_place_latency,
-       replace_after_inplay_bet_delay, cancel_then_place_mixed_delays]
+       replace_after_inplay_bet_delay, cancel_then_place_mixed_delays,
+       f24_place_the_closed_replacement, f23_replace_package_with_a_completed_order]
 
 
 def all_scenarios():
